@@ -120,6 +120,8 @@ def check_case(case):
   if shape.get('configurable_base') and shape['api'] == 'configurable' and shape['kind'] in (
       'class_init', 'class_new'):
     labels.add('constructor-inherited-from-a-configurable-base')
+  if shape.get('earlier_version') and shape['kind'] == 'function':
+    labels.add('function-redefined-in-interactive-mode')
   if shape.get('later_sibling') and shape.get('method_api') == 'register':
     labels.add('method-with-a-same-named-method-in-a-later-class')
   sel_full = built.selector
@@ -360,9 +362,12 @@ def strategy(draw):
     shape['later_sibling'] = True
   if shape['kind'] in ('class_init', 'class_new') and shape['api'] == 'configurable' and draw(
       st.booleans()):
-    shape['configurable_base'] = True
+    shape['configurable_base'] = draw(st.sampled_from([1, 1, 2]))
   if shape['kind'] == 'function' and shape['api'] != 'configurable' and draw(st.integers(0, 2)) == 0:
     shape['also_as'] = 'c01first'       # the same function object, registered under this name first
+  elif shape['kind'] == 'function' and (shape['pos'] or shape['dflt']) and draw(
+      st.integers(0, 3)) == 0:
+    shape['earlier_version'] = True     # redefined in interactive mode with another parameter order
   entries = draw(st.lists(_entry, min_size=0, max_size=4))
   capture = None
   if draw(st.integers(0, 5)) == 0:
